@@ -27,6 +27,7 @@ fn dispatch(op: &str, args: &[String]) -> String {
         "chardata" => ops_dom::chardata(args),
         "dom" => ops_domhist::dom(args),
         "domx" => ops_domhist::domx(args),
+        "foreign" => ops_domhist::foreign(args),
         "nameok" => ops_names::nameok(args),
         "query" => ops_xpath::query(args),
         "qfresh" => ops_xpath::qfresh(args),
